@@ -212,6 +212,61 @@ fn fault_case_with(stride_large: usize) -> impl Fn(&mut Src, &mut Ctx) -> Result
     }
 }
 
+// ---- (ii-b) a well-formed record of every type inserted at every record boundary -------------------
+/// payload variants: (data type, payload)
+fn insert_variants() -> Vec<(u8, Vec<u8>)> {
+    vec![
+        (0, vec![]),
+        (1, vec![0x80, 0x06]),
+        (2, vec![0, 1]),
+        (2, vec![0, 3, 0, 2]),
+        (2, [0u8, 7].iter().cycle().take(24).cloned().collect()),
+        (3, vec![0, 0, 0, 5]),
+        (3, vec![0, 0, 0, 5, 0xFF, 0xFF, 0xFF, 0xFB]),
+        (5, vec![0x41, 0x10, 0, 0, 0, 0, 0, 0]),
+        (5, vec![0x41, 0x10, 0, 0, 0, 0, 0, 0, 0x3E, 0x41, 0x89, 0x37, 0x4B, 0xC6, 0xA7, 0xEF]),
+        (6, b"ab".to_vec()),
+        (6, b"abc\0".to_vec()),
+    ]
+}
+const INSERT_TYPES: u64 = 0x40;
+fn insert_table() -> &'static Vec<u64> {
+    static T: OnceLock<Vec<u64>> = OnceLock::new();
+    T.get_or_init(|| {
+        let nv = insert_variants().len() as u64;
+        let mut acc = 0u64;
+        let mut v = vec![0u64];
+        for b in bases().iter().filter(|b| b.name.starts_with("generated")) {
+            acc += b.offsets.len() as u64 * INSERT_TYPES * nv;
+            v.push(acc);
+        }
+        v
+    })
+}
+fn insert_case(src: &mut Src, ctx: &mut Ctx) -> Result<(), String> {
+    let i = src.u64();
+    let (b, k) = locate(insert_table(), i);
+    let base = &bases()[b];
+    let vars = insert_variants();
+    let nv = vars.len() as u64;
+    let at = (k / (INSERT_TYPES * nv)) as usize;
+    let rtype = ((k / nv) % INSERT_TYPES) as u8;
+    let (dt, payload) = &vars[(k % nv) as usize];
+    let mut rec = ((payload.len() + 4) as u16).to_be_bytes().to_vec();
+    rec.push(rtype);
+    rec.push(*dt);
+    rec.extend_from_slice(payload);
+    let mut bytes = base.bytes.clone();
+    let off = base.offsets[at];
+    bytes.splice(off..off, rec);
+    ctx.nontrivial(hash_of(&bytes));
+    ctx.label(&format!("inserted data type {}", dt));
+    if i % 9973 == 0 {
+        ctx.sample("inserted record", || format!("{}: record type {:#04x} data type {} payload {} bytes inserted before record #{} (byte {})", base.name, rtype, dt, payload.len(), at, off));
+    }
+    check_bytes(&bytes, false, ctx).map_err(|e| format!("{}: well-formed record of type {:#04x} (data type {}, payload {}) inserted before record #{} at byte {}: {}", base.name, rtype, dt, hex(payload, 24), at, off, e))
+}
+
 // ---- (iii) byte mutations and noise ---------------------------------------------------------------
 fn mutate(src: &mut Src) -> (Vec<u8>, String) {
     let nb = bases().len();
@@ -361,7 +416,7 @@ fn scaling_case(src: &mut Src, ctx: &mut Ctx) -> Result<(), String> {
 
 fn run(run: &mut Run) {
     engine::journal::set_hang_ms(30_000);
-    run.rule("Base streams: 30 generated valid streams (all element kinds, <= ~2 KB) + 3 repository files. (i) every truncation point of every base; (ii) every single-record fault (6 length faults, empty payload, 64 record types, 8 data types, delete/duplicate/swap, 8 splices) at every record of the generated bases and every n-th record of the repository files; (iii) proptest-driven byte mutations and noise; extreme/unnormalised reals in UNITS; allocation scaling. Non-trivial = faulted stream differs from its base; distinct by hash of the bytes.");
+    run.rule("Base streams: 30 generated valid streams (all element kinds, <= ~2 KB) + 3 repository files. (i) every truncation point of every base; (ii) every single-record fault (6 length faults, empty payload, 64 record types, 8 data types, delete/duplicate/swap, 8 splices) at every record of the generated bases and every n-th record of the repository files; (ii-b) a well-formed record of each of the 64 record types x 11 payload shapes inserted at every record boundary of the generated bases; (iii) proptest-driven byte mutations and noise; extreme/unnormalised reals in UNITS; allocation scaling. Non-trivial = faulted stream differs from its base; distinct by hash of the bytes.");
     run.assume("termination is observed as: the call returns before the supervisor's hang watchdog / 60 s CPU limit; 'time proportional to input' is approximated by allocation volume at most doubling when the input doubles");
     run.assume("which error is returned is not asserted");
     run.min_nontrivial = 1000;
@@ -369,6 +424,7 @@ fn run(run: &mut Run) {
     let st = stride(run.tier);
     let f = fault_case_with(st);
     run.enumerate("record-faults", *fault_table(st).last().unwrap(), &f);
+    run.enumerate("record-insertions", *insert_table().last().unwrap(), &insert_case);
     let np = real_patterns().len() as u64;
     run.enumerate("reals", np * np, &reals_case);
     run.explore("mutations", run.tier.pick(400_000, 4_000_000), 64, &noise_case);
@@ -382,6 +438,7 @@ fn case(sub: &str) -> Option<Box<CaseFn<'static>>> {
             let st = if std::env::var("VERIF_TIER").ok().as_deref() == Some("thorough") { 1 } else { 9 };
             Some(Box::new(fault_case_with(st)))
         }
+        "record-insertions" => Some(Box::new(insert_case)),
         "reals" => Some(Box::new(reals_case)),
         "mutations" => Some(Box::new(noise_case)),
         "alloc-scaling" => Some(Box::new(scaling_case)),
